@@ -2,6 +2,8 @@ import Ufo2ftModel.Drv.Util
 import Ufo2ftModel.Spec.C14
 import Ufo2ftModel.Spec.C14Run
 import Ufo2ftModel.Spec.C14Special
+import Ufo2ftModel.Model.C14Cu2qu
+import Ufo2ftModel.Spec.C14Cu2qu
 namespace Ufo2ft.Drv.C14
 open Lean Ufo2ft.Drv Ufo2ft.C14
 
@@ -81,18 +83,35 @@ def asInclude (j : Json) : R Include := do
   | .ok i => pure i
   | .error _ => throw "include spec rejected"
 
+def asCurveType (j : Json) : R CurveType := do
+  match ← asStr j with
+  | "cubic" => pure .cubic
+  | "quadratic" => pure .quadratic
+  | _ => pure .other
+
+def curveTypeS : CurveType → String
+  | .cubic => "cubic" | .quadratic => "quadratic" | .other => "other"
+
+def asC2QEnv (j : Json) : R C2QEnv := do
+  return { remember := ← asBool (← field j "remember"), fontType := ← asCurveType (← field j "font"),
+           layerType := ← asCurveType (← field j "layer") }
+
 structure FontIn where
   gs : GlyphSet
   marks : List String
   bounds : List (String × List (Option (Q × Q)))
   cap : Q
   xh : Q
+  c2q : Option C2QEnv := none
 
 def asFontIn (j : Json) : R FontIn := do
   return { gs := ← asGlyphSet (← field j "gs"),
            marks := ← asList asStr (← field j "marks"),
            bounds := ← asList (asPair asStr (asList (asOpt (asPair asRat asRat)))) (← field j "bounds"),
-           cap := ← asRat (← field j "cap"), xh := ← asRat (← field j "xh") }
+           cap := ← asRat (← field j "cap"), xh := ← asRat (← field j "xh"),
+           c2q := ← (match j.getObjVal? "c2q" with
+             | .ok v => asOpt asC2QEnv v
+             | .error _ => pure none) }
 
 def kindOf (name : String) (opts : Json) (f : FontIn) : R Kind :=
   match name with
@@ -120,13 +139,21 @@ structure ObsCall where
   modified : List String
   after : GlyphSet
   src : List String
+  again : Option Outcome := none
 
-def asObsCall (j : Json) : R ObsCall := do
+def asOutcome (j : Json) : R Outcome := do
   let err ← asOpt asStr (← field j "err")
   match err with
-  | some e => return { err := some e, modified := [], after := [], src := ← asList asStr (← field j "src") }
+  | some e => return { err := some e, modified := [], gs := [] }
   | none => return { err := none, modified := ← asList asStr (← field j "modified"),
-                     after := ← asGlyphSet (← field j "after"), src := ← asList asStr (← field j "src") }
+                     gs := ← asGlyphSet (← field j "after") }
+
+def asObsCall (j : Json) : R ObsCall := do
+  let o ← asOutcome j
+  let again ← match j.getObjVal? "again" with
+    | .ok v => asOpt asOutcome v
+    | .error _ => pure none
+  return { err := o.err, modified := o.modified, after := o.gs, src := ← asList asStr (← field j "src"), again := again }
 
 def ObsCall.outcome (o : ObsCall) : Outcome := { err := o.err, modified := o.modified, gs := o.after }
 
@@ -147,15 +174,29 @@ def seq (req : Json) : R Reply := do
   let mut fps : Array (Footprint × GlyphSet) := #[]
   for f in fonts do
     let k ← kindOf name opts f
-    let (obj', r) := call k incl obj f.gs
-    obj := obj'
     fps := fps.push (fpOf k, f.gs)
-    match r with
-    | .error e => outs := outs.push (Json.mkObj [("err", Json.str (errS e))])
-    | .ok o => outs := outs.push (Json.mkObj [("err", Json.null), ("modified", strsJ (sortStr o.modified)),
-                                              ("after", glyphSetJ o.gs), ("amb", Json.bool o.ambiguous)])
+    match f.c2q with
+    | some env =>
+      -- CubicToQuadraticFilter: the rememberCurveType gate around BaseFilter.__call__ (Model/C14Cu2qu)
+      let (obj', r) := c2qCall env id incl obj f.gs
+      obj := obj'
+      match r with
+      | .error .notImplemented => outs := outs.push (Json.mkObj [("err", Json.str "NotImplementedError")])
+      | .error (.inner e) => outs := outs.push (Json.mkObj [("err", Json.str (errS e))])
+      | .ok o => outs := outs.push (Json.mkObj [("err", Json.null), ("modified", strsJ (sortStr o.out.modified)),
+                                                ("after", glyphSetJ o.out.gs), ("amb", Json.bool o.out.ambiguous),
+                                                ("gslib", Json.str (curveTypeS o.layerAfter))])
+    | none =>
+      let (obj', r) := call k incl obj f.gs
+      obj := obj'
+      match r with
+      | .error e => outs := outs.push (Json.mkObj [("err", Json.str (errS e))])
+      | .ok o => outs := outs.push (Json.mkObj [("err", Json.null), ("modified", strsJ (sortStr o.modified)),
+                                                ("after", glyphSetJ o.gs), ("amb", Json.bool o.ambiguous)])
   -- property, on the observation
   let hcalls := (List.zip fps.toList ocalls).all (fun (e : (Footprint × GlyphSet) × ObsCall) =>
+    -- a second run on the same source font (new copies) gives the same, whether or not the call raised
+    holdsAgain separate e.2.outcome e.2.again &&
     match e.2.err with
     | some _ => true
     | none => holdsCall e.1.1 incl e.1.2 e.2.modified e.2.after && holdsSource separate e.2.src)
